@@ -265,3 +265,23 @@ def _hardening_args_from(tree, repo):
 
 custom("hardening_args_from", "src/core_codemods/requests_verify.py", ["C18"], "hardening_args_from", "args_from", "FromUpdated",
        _hardening_args_from, doc="RequestsVerify.on_result_found: which node's args replace_args rebuilds from")
+
+
+def _secure_random_target_from(tree, repo):
+    d = find_def(tree, "SecureRandomTransformer.on_result_found")
+    if d is None:
+        raise Unrecognised("SecureRandomTransformer.on_result_found not found")
+    calls = [n for n in ast.walk(d) if isinstance(n, ast.Call) and isinstance(n.func, ast.Attribute) and n.func.attr == "update_call_target"]
+    rets = [n for n in ast.walk(d) if isinstance(n, ast.Return)]
+    if len(calls) != 2 or len(rets) != 2 or any(r.value not in calls for r in rets):
+        raise Unrecognised("SecureRandomTransformer.on_result_found does not return update_call_target(...) in both branches")
+    names = {c.args[0].id if c.args and isinstance(c.args[0], ast.Name) else None for c in calls}
+    if names == {"updated_node"}:
+        return "FromUpdated"
+    if names == {"original_node"}:
+        return "FromOriginal"
+    raise Unrecognised(f"update_call_target is given {sorted(map(str, names))}")
+
+
+custom("secure_random_target_from", "src/core_codemods/secure_random.py", ["C18"], "secure_random_target_from", "args_from", "FromUpdated",
+       _secure_random_target_from, doc="SecureRandomTransformer.on_result_found: which node update_call_target rebuilds the call from")
